@@ -235,6 +235,12 @@ fn all_eq<F: PF>(c: &Ctx, rs: &[F], want: &BigInt, what: &str) -> Result<(), Str
     for (i, r) in rs.iter().enumerate() {
         wf(c, r, what)?;
         if &fe(r) != want { return Err(format!("{} (form {}): got {} limbs {:x?} want {:x}", what, i, hex(&r.enc()), r.raw(), want)); }
+        // the result must also be EQUAL (equals(), and a zero difference) to an element built independently from the expected
+        // value: a result that encodes correctly but sits in an internal representation the other operations do not
+        // accept (e.g. not below the modulus for the Montgomery types) is a wrong result
+        let refel = F::mk(&in_value::<F>(want));
+        if r.f_equals(refel) != 0xFFFFFFFF { return Err(format!("{} (form {}): result {} does not compare equal to a fresh element of the same value", what, i, hex(&r.enc()))); }
+        for d in r.f_sub(refel) { if d.f_iszero() != 0xFFFFFFFF || d.enc().iter().any(|&b| b != 0) { return Err(format!("{} (form {}): result - expected is not a canonical zero (encodes {})", what, i, hex(&d.enc()))); } }
     }
     Ok(())
 }
